@@ -163,6 +163,18 @@ fn ops(len: usize, nvals: usize, max: usize) -> Vec<Op> {
         v.push(Op::PushVec(vec![0, 1 % nvals]));
         v.push(Op::PushVec(vec![1 % nvals, 0]));
     }
+    // positions and counts far outside any stack: the type's boundaries and the 32-bit boundaries inside a 64-bit index
+    for i in [usize::MAX, usize::MAX - 1, usize::MAX / 2, (isize::MAX as usize) / 4 + 1, 1usize << 31, (1usize << 31) + 1, u32::MAX as usize] {
+        v.push(Op::PopVec(i));
+        v.push(Op::CopyVec(i));
+        v.push(Op::Get(i));
+        v.push(Op::Copy(i));
+        v.push(Op::Remove(i));
+        v.push(Op::Yank(i));
+        v.push(Op::Shove(i));
+        v.push(Op::Replace(i, 0));
+        v.push(Op::EqualAt(i, 0));
+    }
     for i in 0..=len + 2 {
         v.push(Op::PopVec(i));
         v.push(Op::CopyVec(i));
